@@ -125,6 +125,14 @@ def mutate_attr(
     if not (inplace or metadata and metadata.do_not_copy):
         obj = copy.deepcopy(obj)
 
+    # If dependants are going to be invalidated (which may run user code, such
+    # as default factories), remember the current state of `obj` so that a
+    # failure does not leave it half-updated. (Copies are simply discarded.)
+    will_invalidate = bool(
+        not skip_invalidation and metadata and metadata.invalidation_map
+    )
+    saved_state = dict(obj.__dict__) if inplace and will_invalidate else None
+
     # Perform actual mutation
     try:
         getattr(obj.__setattr__, "__raw__", setattr)(obj, attr, value)
@@ -144,8 +152,14 @@ def mutate_attr(
         raise
 
     # Invalidate any caches depending on this attribute
-    if not skip_invalidation and metadata and metadata.invalidation_map:
-        invalidate_attrs(obj, attr, metadata.invalidation_map)
+    if will_invalidate:
+        try:
+            invalidate_attrs(obj, attr, metadata.invalidation_map)
+        except BaseException:
+            if saved_state is not None:
+                obj.__dict__.clear()
+                obj.__dict__.update(saved_state)
+            raise
 
     return obj
 
